@@ -5,6 +5,13 @@
 //	c13obs mounts <cwd> <maxseg> <k1,k2,...>    path \t mount \t rel   (through VirtualOS.Stat on recording filesystems)
 //	c13obs stdin-resolve <base>                 same as resolve for paths read from stdin (hex, one per line)
 //	c13obs stdin-mounts <cwd> <k1,k2,...>       same as mounts for paths read from stdin (hex)
+//	c13obs two <cwd> <k1,k2,...>                TWO-path operations (Rename, Symlink) with DIFFERENT arguments on recording
+//	                                            filesystems: stdin lines "<hex p1> <hex p2>" -> line \t NONE | hex(mount):hex(rel1):hex(rel2)
+//	c13obs twotree <cwd> <k1,k2,...>            the same operations on a VirtualOS whose mounts are rooted filesystems over REAL
+//	                                            directory trees (a skeleton of directories in every source, so that a wrongly
+//	                                            resolved path can land): stdin lines "<op> <hex p1> <hex p2> <src index> <hex rel1>"
+//	                                            (where the harness puts the file to be renamed / linked: decided by the caller);
+//	                                            prints every host entry created / removed / changed by the operation
 //	c13obs localfs <maxseg>                     every localfs method over a temp tree with sentinels
 //	c13obs lfshist                              histories of localfs operations (stdin, one per line: ops separated by ';',
 //	                                            op = Name:hex(arg1)[:hex(arg2)]) on a fresh sentinel tree each; after EVERY
@@ -172,6 +179,184 @@ func mountObs(vos *ros.VirtualOS, log *[]string, p string) string {
 		}
 	}
 	return first
+}
+
+// two-path operations with different arguments: Rename and Symlink must agree, and hand (rel1, rel2) to ONE mount or refuse
+func twoObs(vos *ros.VirtualOS, log *[]string, p1, p2 string) string {
+	one := func(f func()) string {
+		*log = (*log)[:0]
+		f()
+		if len(*log) == 0 {
+			return "NONE"
+		}
+		if len(*log) > 1 {
+			return "MULTI:" + hex.EncodeToString([]byte(strings.Join(*log, "|")))
+		}
+		parts := strings.SplitN((*log)[0], "\t", 3)
+		two := strings.SplitN(parts[2], "\x00", 2)
+		if len(two) != 2 {
+			return "BAD:" + hex.EncodeToString([]byte((*log)[0]))
+		}
+		return hex.EncodeToString([]byte(parts[0])) + ":" + hex.EncodeToString([]byte(two[0])) + ":" + hex.EncodeToString([]byte(two[1]))
+	}
+	a := one(func() { vos.Rename(p1, p2) })
+	b := one(func() { vos.Symlink(p1, p2) })
+	if a != b {
+		return "DISAGREE:Rename=" + a + ",Symlink=" + b
+	}
+	return a
+}
+
+// ---------------------------------------------------------------- two-path operations on real trees
+
+// every source gets the same skeleton of directories: the names of the generator's alphabet, every proper suffix of
+// them (where a raw string-prefix trim of a sibling name lands), and one more level under the names themselves
+func skeletonDirs(names []string) []string {
+	seen := map[string]bool{}
+	var first []string
+	add := func(n string) {
+		if n != "" && n != "." && n != ".." && !strings.Contains(n, "/") && !seen[n] {
+			seen[n] = true
+			first = append(first, n)
+		}
+	}
+	for _, n := range names {
+		add(n)
+		for i := 1; i < len(n); i++ {
+			add(n[i:])
+		}
+	}
+	out := append([]string{}, first...)
+	for _, a := range first {
+		for _, b := range names {
+			if b != "" && b != "." && b != ".." {
+				out = append(out, a+"/"+b)
+			}
+		}
+	}
+	return out
+}
+
+func listEntries(root string) map[string]string {
+	m := map[string]string{}
+	filepath.WalkDir(root, func(path string, d fs.DirEntry, err error) error {
+		if err != nil || d == nil || path == root {
+			return nil
+		}
+		info, e := os.Lstat(path)
+		if e != nil {
+			return nil
+		}
+		rel, _ := filepath.Rel(root, path)
+		switch {
+		case info.Mode()&os.ModeSymlink != 0:
+			t, _ := os.Readlink(path)
+			m[rel] = "link->" + t
+		case info.Mode().IsRegular():
+			b, _ := os.ReadFile(path)
+			m[rel] = "file:" + string(b)
+		default:
+			m[rel] = "dir"
+		}
+		return nil
+	})
+	return m
+}
+
+func twoTree(cwd string, keys []string, names []string) int {
+	root, err := os.MkdirTemp("", "c13two")
+	if err != nil {
+		fmt.Fprintln(os.Stderr, err)
+		return 1
+	}
+	defer os.RemoveAll(root)
+	root, _ = filepath.EvalSymlinks(root)
+	skel := skeletonDirs(names)
+	mounts := map[string]*ros.Mount{}
+	for i, k := range keys {
+		src := filepath.Join(root, fmt.Sprintf("src%d", i))
+		for _, d := range skel {
+			os.MkdirAll(filepath.Join(src, d), 0o755)
+		}
+		os.MkdirAll(src, 0o755)
+		os.WriteFile(filepath.Join(src, "SENTINEL.txt"), []byte(fmt.Sprintf("sentinel of source %d", i)), 0o644)
+		lfs, err := localfs.New(context.Background(), localfs.WithBase(src))
+		if err != nil {
+			fmt.Fprintln(os.Stderr, err)
+			return 1
+		}
+		mounts[k] = &ros.Mount{Source: lfs, Target: k}
+	}
+	os.WriteFile(filepath.Join(root, "OUTSIDE.txt"), []byte("outside"), 0o644)
+	vos := ros.NewVirtualOS(context.Background(), ros.WithMounts(mounts), ros.WithCwd(cwd))
+	w := bufio.NewWriterSize(os.Stdout, 1<<20)
+	defer w.Flush()
+	sc := bufio.NewScanner(os.Stdin)
+	sc.Buffer(make([]byte, 1<<20), 1<<20)
+	unhex := func(h string) string { b, _ := hex.DecodeString(h); return string(b) }
+	for sc.Scan() {
+		f := strings.Split(sc.Text(), " ")
+		if len(f) != 5 {
+			fmt.Fprintln(w, sc.Text()+"\tBADLINE")
+			continue
+		}
+		op, p1, p2 := f[0], unhex(f[1]), unhex(f[2])
+		si, _ := strconv.Atoi(f[3])
+		rel1 := unhex(f[4])
+		// the file the operation is about, placed by the harness where the CALLER says the first path lives
+		if si >= 0 && rel1 != "" {
+			host := filepath.Join(root, fmt.Sprintf("src%d", si), rel1)
+			os.MkdirAll(filepath.Dir(host), 0o755)
+			if st, err := os.Lstat(host); err != nil || !st.IsDir() {
+				os.WriteFile(host, []byte("payload"), 0o644)
+			}
+		}
+		before := listEntries(root)
+		var opErr error
+		if op == "Rename" {
+			opErr = vos.Rename(p1, p2)
+		} else {
+			opErr = vos.Symlink(p1, p2)
+		}
+		after := listEntries(root)
+		var changes []string
+		for k, v := range before {
+			if a, ok := after[k]; !ok {
+				changes = append(changes, "-"+k)
+			} else if a != v {
+				changes = append(changes, "~"+k)
+			}
+		}
+		for k, v := range after {
+			if _, ok := before[k]; !ok {
+				if strings.HasPrefix(v, "link->") {
+					t := strings.TrimPrefix(v, "link->")
+					if r, err := filepath.Rel(root, t); err == nil && !strings.HasPrefix(r, "..") {
+						t = "@ROOT/" + r
+					}
+					changes = append(changes, "+"+k+"=link->"+t)
+				} else {
+					changes = append(changes, "+"+k)
+				}
+			}
+		}
+		sort.Strings(changes)
+		e := "ok"
+		if opErr != nil {
+			e = "err"
+		}
+		fmt.Fprintf(w, "%s\t%s\t%s\n", sc.Text(), e, hex.EncodeToString([]byte(strings.Join(changes, "\n"))))
+		// back to the skeleton: everything that is not a directory or a sentinel goes
+		for k, v := range after {
+			if v != "dir" && !strings.HasSuffix(k, "SENTINEL.txt") && k != "OUTSIDE.txt" {
+				os.Remove(filepath.Join(root, k))
+			}
+		}
+		for i := range keys {
+			os.WriteFile(filepath.Join(root, fmt.Sprintf("src%d", i), "SENTINEL.txt"), []byte(fmt.Sprintf("sentinel of source %d", i)), 0o644)
+		}
+	}
+	return 0
 }
 
 func resolveLine(base, p string) string {
@@ -739,6 +924,26 @@ func main() {
 			o := mountObs(vos, &log, string(b))
 			fmt.Fprintf(w, "%s\t%s\n", sc.Text(), hex.EncodeToString([]byte(o)))
 		}
+	case "two":
+		cwd := os.Args[2]
+		keys := strings.Split(os.Args[3], ",")
+		var log []string
+		vos := newVOS(cwd, keys, &log)
+		sc := bufio.NewScanner(os.Stdin)
+		sc.Buffer(make([]byte, 1<<20), 1<<20)
+		for sc.Scan() {
+			f := strings.Split(sc.Text(), " ")
+			if len(f) != 2 {
+				fmt.Fprintln(w, sc.Text()+"\tBADLINE")
+				continue
+			}
+			a, _ := hex.DecodeString(f[0])
+			b, _ := hex.DecodeString(f[1])
+			fmt.Fprintf(w, "%s\t%s\n", sc.Text(), twoObs(vos, &log, string(a), string(b)))
+		}
+	case "twotree":
+		w.Flush()
+		os.Exit(twoTree(os.Args[2], strings.Split(os.Args[3], ","), strings.Split(os.Args[4], ",")))
 	case "hist":
 		// one history per line: cwd0 SP keys SP ops (hex; op = C<hex> | U<hex>, ';' separated), replayed on ONE VirtualOS
 		sc := bufio.NewScanner(os.Stdin)
